@@ -536,9 +536,11 @@ Definition field_indices (prev : list Z) (fields chosen : list (list Z)) : list 
   let now := chosen_indices 0 fields chosen in
   if field_indices_reset_per_vdata =? 0 then now ++ skipn (length now) prev else now.
 
-(** indices used for each Vdata of a file, in order (the array lives across the loop over the Vdatas) *)
+(** indices used for each Vdata of a file, in order (the array lives across the loop over the Vdatas); a Vdata
+    none of whose fields was chosen (flds_match = 0) is not dumped at all *)
 Fixpoint fields_walk (prev : list Z) (vds : list (list (list Z))) (chosen : list (list Z)) : list (list Z) :=
   match vds with
   | [] => []
-  | fields :: r => let ix := field_indices prev fields chosen in ix :: fields_walk ix r chosen
+  | fields :: r => let ix := field_indices prev fields chosen in
+                   (match chosen_indices 0 fields chosen with [] => [] | _ => ix end) :: fields_walk ix r chosen
   end.
